@@ -9,7 +9,7 @@ import types
 import z3
 
 from . import spec as specmod
-from .values import (SV, SInt, SReal, SBool, SStr, SBits, SAny, SChoice, SSeq,
+from .values import (PList, SV, SInt, SReal, SBool, SStr, SBits, SAny, SChoice, SSeq,
                      SObj, SDict, Closure, BoundMethod, SuperProxy, ExcVal,
                      fresh_name, lift, simplify_concrete)
 
@@ -53,6 +53,42 @@ def seq_from_list(interp, items, kind='list'):
   for i, z in enumerate(zs):
     arr = z3.Store(arr, i, z)
   return SSeq(arr, z3.IntVal(len(zs)), lift, interp.to_z3, kind, sort)
+
+
+def promote(interp, lst, like=None):
+  """Turns a concrete interpreter list into a symbolic sequence in place."""
+  if not isinstance(lst, PList):
+    raise unsupported('a list not created by interpreted code absorbs a symbolic-length sequence')
+  if lst.sym is not None:
+    return lst.sym
+  s = seq_from_list(interp, list(lst)) if len(lst) else None
+  if s is None:
+    if len(lst):
+      raise unsupported('promotion of a heterogeneous list')
+    proto = like if isinstance(like, SSeq) else None
+    if isinstance(like, SObj) and isinstance(like.ghost.get('items'), SSeq):
+      proto = like.ghost['items']
+    if proto is None:
+      sort, wrap, unwrap = z3.IntSort(), lift, interp.to_z3
+    else:
+      sort, wrap, unwrap = proto.sort, proto.wrap, proto.unwrap
+    s = SSeq(z3.K(z3.IntSort(), _default_of(sort)), z3.IntVal(0), wrap, unwrap, 'list', sort)
+  elif isinstance(like, SSeq):
+    s.wrap, s.unwrap = like.wrap, like.unwrap
+  lst.sym = s
+  return s
+
+
+def _default_of(sort):
+  if sort == z3.IntSort():
+    return z3.IntVal(0)
+  if sort == z3.BoolSort():
+    return z3.BoolVal(False)
+  if sort == z3.RealSort():
+    return z3.RealVal(0)
+  if sort == z3.StringSort():
+    return z3.StringVal('')
+  return z3.FreshConst(sort)
 
 
 def seq_len(v):
@@ -334,7 +370,8 @@ def method(interp, obj, name, args, kwargs, frame):
     if name == 'extend':
       items = interp.iterate(args[0], frame)
       if items is None:
-        raise unsupported('extend by symbolic-length sequence')
+        promote(interp, obj, like=args[0])
+        return seq_method(interp, obj.sym, 'extend', args, kwargs, frame)
       obj.extend(items)
       return None
     if name == 'insert' and is_concrete(args[0]):
@@ -639,7 +676,7 @@ def call_builtin_type(interp, fn, args, kwargs, frame):
     return type(v)
   if fn in (list, tuple):
     if not args:
-      return fn()
+      return PList() if fn is list else ()
     v = args[0]
     if isinstance(v, SObj) and isinstance(v.ghost.get('items'), SSeq):
       v = v.ghost['items']
@@ -650,7 +687,7 @@ def call_builtin_type(interp, fn, args, kwargs, frame):
     items = interp.iterate(v, frame)
     if items is None:
       raise unsupported(f'{fn.__name__}() of symbolic iterable')
-    return fn(items)
+    return PList(items) if fn is list else tuple(items)
   if fn is dict:
     d = {}
     for a in args:
